@@ -1527,6 +1527,16 @@ impl<'v> World<'v> {
                     self.sh.borrow_mut().oracle.delivered(m);
                 }
                 self.sh.borrow_mut().oracle.check_no_missed_delivery(op.name());
+                if matches!(res, Res::BufferTooSmall | Res::InflightExhausted) && !self.sh.borrow().oracle.owed_acks.is_empty() {
+                    let kinds: std::collections::BTreeSet<String> =
+                        self.sh.borrow().oracle.owed_acks.iter().map(|o| format!("{:?}", o.kind)).collect();
+                    self.sh.borrow_mut().oracle.flag(
+                        "C04",
+                        "I2-ack-blocked-by-local-resources",
+                        &format!("{}-{:?}", kinds.into_iter().collect::<Vec<_>>().join("+"), res),
+                        format!("{} failed with {:?} while acknowledgements are owed to the broker: they must go out even when the transmit arena or the in-flight list is full", op.name(), res),
+                    );
+                }
                 if res == Res::InflightExhausted {
                     self.sh.borrow_mut().oracle.flag(
                         "C06",
